@@ -126,4 +126,8 @@ theorem decodeOne_multianewarray (pc a b d : Nat) (rest : Bytes) :
     decodeOne pc (0xc5 :: a :: b :: d :: rest) = some (.multianewarray (a * 256 + b) d, 4) := by
   simp [decodeOne, isSimple, isIf, isCp]
 
+theorem decodeOne_invokedynamic (pc a b : Nat) (rest : Bytes) :
+    decodeOne pc (0xba :: a :: b :: 0 :: 0 :: rest) = some (.invokedynamic (a * 256 + b), 5) := by
+  simp [decodeOne, isSimple, isIf, isCp]
+
 end CodeDecode
